@@ -1043,6 +1043,8 @@ class Executor:
                 for src in getattr(c, 'exc_ensures', []) or []:
                     # what the callee guarantees about the state it leaves behind when it raises
                     q.add(self.spec.bool(ast.parse(src, mode='eval').body, qctx))
+                for gname, src in (getattr(c, 'defines_exc', None) or {}).items():
+                    q.ghost[gname] = self.spec.ev(ast.parse(src, mode='eval').body, qctx)
                 exc = self.sym_exception(cls, c, env, q, qctx)
                 out.append(Res(q, exc=exc))
         # normal outcome
